@@ -106,7 +106,6 @@ func checkC09(c *Ctx) {
 	c.guard(p, "C09.guard", "bounded decoding fails unless value < order", p.Func("ecc/bls12381/ff", "", "setBytesBounded"), GuardSpec{Assumes: []Assume{calleeAssume(latInt(0), -1, "ecc/bls12381/ff.isLessThan")}})
 	c.depRule(p, "C09.guard", "the error of both Fp components reaches the result", p.Func("ecc/bls12381/ff", "Fp2", "UnmarshalBinary"), sinkResult(), "call:(*ecc/bls12381/ff.Fp).UnmarshalBinary", "call:ecc/bls12381/ff.errFirst")
 
-
 	// BLS keys
 	c.guard(p, "C09.guard", "public key decodes only through the group decoder", p.Func("sign/bls", "PublicKey", "UnmarshalBinary"),
 		GuardSpec{Assumes: []Assume{calleeAssume(latNonNil, -1, "(*ecc/bls12381.G1).SetBytes", "(*ecc/bls12381.G2).SetBytes")}})
